@@ -265,11 +265,8 @@ def rule_macros(ctx):
     prog = ctx.prog
     m = prog.mod("macros")
     n = 0
-    for k, v in m.consts.items():
-        if not (isinstance(v, ast.Call) and v.args and isinstance(v.args[0], ast.Constant) and isinstance(v.args[0].value, str)):
-            continue
-        txt = v.args[0].value
-        mt = re.search(r"create\s+(?:or\s+replace\s+)?macro\s+(?:if\s+not\s+exists\s+)?\$\{catalog\}\.(\w+)\s*\(([^)]*)\)\s+as\s+(.*?);", txt, re.I | re.S)
+    for k, txt, stmt_ in m.sql_templates():
+        mt = re.search(r"create\s+(?:or\s+replace\s+)?macro\s+(?:if\s+not\s+exists\s+)?\$\{\w+\}\.(\w+)\s*\(([^)]*)\)\s+as\s+(.*?);", txt, re.I | re.S)
         if not mt or mt.group(1).lower() != "equal_null":
             continue
         params = [p.strip().lower() for p in mt.group(2).split(",")]
@@ -284,12 +281,12 @@ def rule_macros(ctx):
                     if got is not want:
                         bad.append(f"equal_null({a or 'NULL'}, {b or 'NULL'}) = {'NULL' if got is None else got}, expected {want}")
         except sqleval.Unsupported as e:
-            ctx.ob("C10.e", "EQUAL_NULL macro body readable", None, m.loc(m.const_stmts[k]), str(e))
+            ctx.ob("C10.e", "EQUAL_NULL macro body readable", None, m.loc(stmt_), str(e))
             continue
         ctx.ob("C10.e", "EQUAL_NULL(a, b) is TRUE iff both NULL or equal, FALSE otherwise, never NULL (9 argument classes)", not bad,
-               m.loc(m.const_stmts[k]), "; ".join(bad[:3]))
+               m.loc(stmt_), "; ".join(bad[:3]))
         if bad:
-            ctx.violation("C10.e", "macros", k, "EQUAL_NULL truth table", m.loc(m.const_stmts[k]),
+            ctx.violation("C10.e", "macros", k, "EQUAL_NULL truth table", m.loc(stmt_),
                           f"the EQUAL_NULL macro body `{mt.group(3).strip()[:80]}` is not NULL-safe equality: {'; '.join(bad[:3])}")
     ctx.floor("EQUAL_NULL argument classes evaluated", n, 9)
 
